@@ -349,7 +349,7 @@ pub fn load(config: &Config) -> Result<Context> {
         match try_load_currency(&config.currency, &mut ctx, &search_path) {
             Ok(()) => (),
             Err(err) => {
-                println!("{:?}", err.wrap_err("Failed to load currency data"));
+                eprintln!("{:?}", err.wrap_err("Failed to load currency data"));
             }
         }
     }
@@ -453,7 +453,7 @@ fn cached(
 
     if let Ok(file) = File::open(&path) {
         // Indicate error even though we're returning success.
-        println!(
+        eprintln!(
             "{:?}",
             Report::wrap_err(
                 err,
